@@ -481,6 +481,11 @@ class Tree(Part):
             # the full 4 x 4 tree once
             full = number(shapes_full(4, 4))[0]
             cases.append(case(full, [], [("poison", 0)], "root_poison"))
+        # every fifth scenario with actors spawned WithContext(<a context that is cancelled already>): taking the
+        # tree down must not depend on the application's own context (round-4 seed C08-r4-2)
+        for i, c in enumerate(cases):
+            if i % 5 == 2:
+                c["input"] = dict(c["input"], ctx=1)
         return cases
 
     def to_coq(self, inp, obs):
